@@ -5,9 +5,14 @@ from .core import Finding, sx
 THEOREMS = ["Cspuz.C13.C13_getitem", "Cspuz.C13.C13_reshape"]
 
 
-def _arrays(h, w):
+def _arrays(h, w, nested=False):
+    """The h x w array whose element (y, x) is variable y*w+x, built from the flat row-major buffer + shape, or (nested)
+    from the equivalent Python list of lists / tuple of generators with the shape inferred (needs h >= 1)."""
     from cspuz.array import BoolArray2D, IntArray2D
     from cspuz.expr import BoolVar, IntVar
+    if nested:
+        return (BoolArray2D([[BoolVar(y * w + x) for x in range(w)] for y in range(h)]),
+                IntArray2D(tuple(iter([IntVar(y * w + x, 0, 1) for x in range(w)]) for y in range(h))))
     return (BoolArray2D([BoolVar(i) for i in range(h * w)], (h, w)),
             IntArray2D([IntVar(i, 0, 1) for i in range(h * w)], (h, w)))
 
@@ -173,6 +178,15 @@ def correspond(ctx):
         ctx.case({"shape": [h, w], "key": sx(key), "real": sx(r)}, (h, w, sx(key)) if nontrivial else None)
         if r != r2:
             ctx.disagree("bool-vs-int-array", shape=[h, w], key=sx(key), bool=sx(r), int=sx(r2))
+        if h >= 1:
+            # the same array built from the equivalent list of lists (shape inferred) must behave identically
+            if ("n", h, w) not in arrs:
+                arrs[("n", h, w)] = _arrays(h, w, nested=True)
+            nb, ni = arrs[("n", h, w)]
+            ctx.count("nested-constructor")
+            if real2(nb, key) != r or real2(ni, key) != r:
+                ctx.disagree("nested-list-constructor", shape=[h, w], key=sx(key), flat=sx(r), nested_bool=sx(real2(nb, key)),
+                             nested_int=sx(real2(ni, key)))
         if rs != m:
             ctx.disagree("model-vs-code", shape=[h, w], key=sx(key), real=sx(r), model=sx(m))
         if os_ != s:
@@ -225,6 +239,8 @@ def correspond(ctx):
                 c3.append((n, h, w))
                 lines.append(sx(["reshape", n, h, w]))
     outs = drv.run(lines)
+    from cspuz.array import IntArray1D, IntArray2D
+    from cspuz.expr import IntVar
     for (n, h, w), out in zip(c3, outs):
         a = BoolArray1D([BoolVar(i) for i in range(n)])
         try:
@@ -238,6 +254,20 @@ def correspond(ctx):
                     ctx.disagree("reshape2d-order", n=n, h=h, w=w)
         except Exception as e:
             r = ["err", core.err_name(e)]
+        # the integer classes have their own reshape / flatten methods: same outcome, same class family
+        try:
+            ib = IntArray1D([IntVar(i, 0, 1) for i in range(n)]).reshape((h, w))
+            ri = _canon(ib)
+            ok = isinstance(ib, IntArray2D) and isinstance(ib.flatten(), IntArray1D) and _canon(ib.flatten()) == ["arr1"] + list(range(n))
+            if h * w == n and n > 0:
+                ib2 = IntArray2D([IntVar(i, 0, 1) for i in range(n)], (h, w)).reshape((w, h))
+                ok = ok and isinstance(ib2, IntArray2D) and _canon(ib2) == ["arr2", w, h] + list(range(n))
+            if not ok:
+                ctx.disagree("int-reshape-flatten", n=n, h=h, w=w)
+        except Exception as e:
+            ri = ["err", core.err_name(e)]
+        if ri != r:
+            ctx.disagree("int-vs-bool-reshape", n=n, h=h, w=w, int=sx(ri), bool=sx(r))
         ctx.case({"reshape": [n, h, w], "real": sx(r)}, ("reshape", n, h, w))
         if [str(x) for x in r] != core.parse_sx(out):
             ctx.disagree("reshape", n=n, h=h, w=w, real=sx(r), model=out)
@@ -252,6 +282,11 @@ def _fail(h, w, key):
     r = real2(ia, key)
     if r != o:
         return r, o
+    if h >= 1:
+        for a in _arrays(h, w, nested=True):
+            r = real2(a, key)
+            if r != o:
+                return r, o, "nested"
     return None
 
 
@@ -280,7 +315,7 @@ def search(ctx, why):
                             ("pair", k, ("s", 1, None, 2)), ("pair", ("s", None, None, -1), k)):
                     f = _fail(h, w, key)
                     if f:
-                        cls = _classify(key, *f)
+                        cls = "nested-list-constructor" if len(f) == 3 else _classify(key, *f[:2])
                         if cls not in found:
                             found[cls] = Finding(
                                 "getitem:" + cls,
